@@ -13,6 +13,8 @@ import (
 
 	"github.com/brutella/hc/crypto"
 
+	"verif/harness/hcx"
+	"verif/harness/script"
 	"verif/refctl"
 	"verif/vf"
 )
@@ -271,4 +273,86 @@ func deferredReaders(r *vf.Run, rnd *rand.Rand) {
 		}
 	}
 	r.Floor("deferred_reader_cases", int(r.Counter("deferred_reader_cases"))+100000*bad, n)
+}
+
+// afterRejectNewKeys: a frame is rejected on a connection; then the connection's owner installs NEW session keys (a
+// repeated pair-verify whose last request was already being handled when the altered frame arrived) and goes on reading.
+// Behind the altered frame the adversary has placed frames that are valid under the new keys at counter 0 (the genuine
+// controller's first frames of the new session, recorded or simply delivered early).  The rejection belongs to the
+// connection's byte stream, not to a key: nothing behind the altered frame may be released, whatever keys come later.
+func afterRejectNewKeys(r *vf.Run, rnd *rand.Rand) {
+	n := r.Pick(200, 2000)
+	bad := 0
+	for i := 0; i < n && bad < 5; i++ {
+		r.Eval()
+		var s1, s2 [32]byte
+		rnd.Read(s1[:])
+		rnd.Read(s2[:])
+		k1, _ := refctl.SessionKeys(s1[:])
+		k2, _ := refctl.SessionKeys(s2[:])
+		f1, f2 := &refctl.Framer{Key: k1}, &refctl.Framer{Key: k2}
+		p1, bogus, q := make([]byte, 1+rnd.Intn(300)), make([]byte, 1+rnd.Intn(300)), make([]byte, 1+rnd.Intn(300))
+		rnd.Read(p1)
+		rnd.Read(bogus)
+		rnd.Read(q)
+		good := f1.SealFrame(p1)
+		altered := f1.SealFrame(bogus)
+		altered[2+rnd.Intn(len(altered)-2)] ^= 1 << uint(rnd.Intn(8))
+		later := append(f2.SealFrame(q), f2.SealFrame(q)...)
+		stream := append(append(append([]byte{}, good...), altered...), later...)
+		var steps []script.Step
+		if i%2 == 0 {
+			steps = []script.Step{{Data: stream}}
+		} else {
+			steps = []script.Step{{Data: append(append([]byte{}, good...), altered...)}, {Data: later}}
+		}
+		sc := script.New(steps)
+		sc.KeepReads = false
+		ctx := hcx.NewContext()
+		hc, err := hcx.ServerConn(sc, ctx, s1)
+		if err != nil {
+			r.Inconclusive("afterRejectNewKeys: " + err.Error())
+			return
+		}
+		hc.Write([]byte("HTTP/1.1 200 OK\r\nContent-Length: 0\r\n\r\n")) // M4: activates the keys for both directions
+		var got []byte
+		buf := make([]byte, 4096)
+		sawErr := false
+		for k := 0; k < 6 && !sawErr; k++ {
+			nn, e := hc.Read(buf)
+			got = append(got, buf[:nn]...)
+			if e != nil {
+				if te, ok := e.(interface{ Timeout() bool }); ok && te.Timeout() {
+					continue
+				}
+				sawErr = true
+			}
+		}
+		// the owner installs the keys of a repeated pair-verify and answers it
+		cr2, err := crypto.NewSecureSessionFromSharedKey(s2)
+		if err != nil {
+			r.Inconclusive("afterRejectNewKeys: " + err.Error())
+			return
+		}
+		ctx.GetSessionForConnection(sc).SetCryptographer(cr2)
+		hc.Write([]byte("HTTP/1.1 200 OK\r\nContent-Length: 0\r\n\r\n"))
+		var after []byte
+		for k := 0; k < 4; k++ {
+			nn, _ := hc.Read(buf)
+			after = append(after, buf[:nn]...)
+		}
+		hc.Close()
+		r.Count("after_reject_new_keys_cases", 1)
+		r.Nontrivial(fmt.Sprintf("after-reject/%d/%d", i%2, len(p1)))
+		wit := map[string]interface{}{"segments": len(steps), "released_before_the_error": len(got), "released_after_the_new_keys": len(after), "error_reported_for_the_altered_frame": sawErr}
+		switch {
+		case !bytes.Equal(got, p1) && !bytes.HasPrefix(p1, got):
+			bad++
+			r.Violation("after-reject:released-other-than-prefix", fmt.Sprintf("%d bytes released that are not a prefix of the one genuine frame in front of the altered one", len(got)), wit)
+		case len(after) > 0:
+			bad++
+			r.Violation("after-reject:released-under-new-keys", fmt.Sprintf("a frame was rejected (error reported: %v); then new session keys were installed on the connection and the next reads released %d bytes that lay BEHIND the altered frame in the stream", sawErr, len(after)), wit)
+		}
+	}
+	r.Floor("after_reject_new_keys_cases", int(r.Counter("after_reject_new_keys_cases"))+100000*bad, n)
 }
